@@ -98,7 +98,6 @@ def build(P):
         params={FRAMES: TSList(FR), T_: TInt(), TOL: TInt()},
         returns=TSObj("FrameGroundTruth", nullable=True),
         locals={"ground_truth_now_frame": FR, "min_time": TInt(), "diff_time": TInt()},
-        requires=E("some_frame_loaded", f"{n} > 0"),
         raises={"DatasetLoadingError": f"{T_} > 10**17"},
         loops={1: LoopSpec(index="i", invariants=E(
             "candidate_is_a_loaded_frame", f"exists(j, 0, {n}, ground_truth_now_frame is {FRAMES}[j])",
@@ -110,6 +109,7 @@ def build(P):
             "result_is_closest", f"implies(result is not None, forall(k, 0, {n}, abs({T_} - result.unix_time) <= abs({T_} - {t('k')})))",
             "result_within_tolerance", f"implies(result is not None, abs({T_} - result.unix_time) <= {TOL})",
             "none_only_if_all_far", f"implies(result is None, forall(k, 0, {n}, abs({T_} - {t('k')}) > {TOL}))",
+            "nothing_when_no_frame_is_loaded", f"implies({n} == 0, result is None)",
             "accepts_times_up_to_limit", f"{T_} <= 10**17",
         )))
     # ------------------------------------------------------------------ interpolate_ground_truth_frames (cut here for its callers; its body is verified by frame_body_task below)
